@@ -101,6 +101,7 @@ class Obs:
         self.skipped: list[str] = []
         self.conn_count = 0
         self.post_close_timers: list[str] = []
+        self.post_close_open: list[str] = []
         self.turn_inconsistency: list[str] = []
         self.reuse: list[str] = []
         self.end_time = 0.0
@@ -188,9 +189,16 @@ def run(case: dict, *, count_only: bool = False) -> Obs:
     )
     user_disc = [False]
 
+    n_reconn = [0]
+
     async def on_stop(expected: bool) -> None:
         env.log("on_stop", arg=expected, conn=_last_closed_conn(env),
                 seen=[(i, c.connection_state.name, bool(c.is_connected)) for i, c in enumerate(env.conns)])
+        if case.get("on_stop_reconnect") and n_reconn[0] < int(case.get("on_stop_reconnect")):
+            # the usual purpose of a stop callback: reconnect at once (runs synchronously inside the close on 3.12,
+            # where the client starts the callback as an eager task)
+            n_reconn[0] += 1
+            env.spawn(f"reconn{n_reconn[0]}", cli.connect(on_stop=on_stop, login=login))
 
     def on_state(state: Any) -> None:
         env.log("cb", what=type(state).__name__)
@@ -382,6 +390,11 @@ def run(case: dict, *, count_only: bool = False) -> Obs:
             if cid in closed_at_iter:  # closed at some turn boundary (even if the state was overwritten later)
                 c_it = closed_at_iter[cid]
                 if it == c_it + 3:
+                    # "its transport and socket are closed": not only at quiescence -- a socket still open three turns
+                    # after the close is an open socket for as long as the peer chooses (stalled peer, unsent buffer)
+                    for tr_ in env.transports:
+                        if tr_.conn_id == cid and not tr_.sock.closed:
+                            obs.post_close_open.append(f"conn{cid}: socket #{tr_.sock.idx} still open three loop turns after the connection closed ({len(tr_.buffer)} unsent bytes in the transport buffer)")
                     for h in loop.armed_timers():
                         cb = h._callback
                         owner = getattr(cb, "__self__", None)
@@ -639,6 +652,8 @@ def oracle_c08(obs: Obs) -> list[Violation]:
                 break
     for x in obs.loop_errors[:1]:
         v.append(Violation("C08", "c08:loop-callback-raised:" + x.split(":", 1)[0], x))
+    for x in obs.post_close_open[:1]:
+        v.append(Violation("C08", "c08:socket-open-after-close", x))
     for x in obs.post_close_timers[:1]:
         v.append(Violation("C08", "c08:timer-armed-after-close:" + x.split(":", 1)[1], x))
     kinds = sorted({a.split(":")[0] + (":" + a.split(":")[1] if a.startswith(("timer", "task")) else "") for a in obs.audit})
